@@ -47,7 +47,8 @@ def _matches_directory_pattern(path: str, pattern: str) -> bool:
     """
     dir_pattern = pattern.rstrip("/")
     path_parts = Path(path).parts
-    if dir_pattern in path_parts:
+    # Only directory components count: a regular file that is merely named like the pattern is not "inside" it
+    if dir_pattern in path_parts[:-1]:
         return True
     # Nested directory patterns ("src/gen/"): match files below that directory only,
     # not look-alike siblings such as "src/generated/" or "src/gen.py"
